@@ -6,10 +6,10 @@
 # The real /repo and /verif are not touched while this runs, except for seeded/MATRIX*.md at the end.
 set -u
 TIER=${1:-quick}; L=${2:-4}; FILTER=${3:-}
-OUT=/verif/seeded/MATRIX${FILTER:+.$FILTER}.md
+OUT=/verif/seeded/MATRIX${FILTER:+.subset}.md
 LIST=()
 for d in /verif/seeded/C*-*m* /verif/mutants/*.diff; do
-  case "$d" in *"$FILTER"*) LIST+=("$d") ;; esac
+  if [[ -z "$FILTER" || "$d" =~ $FILTER ]]; then LIST+=("$d"); fi
 done
 echo "${#LIST[@]} changes, $L lanes"
 for k in $(seq 0 $((L-1))); do
